@@ -403,10 +403,9 @@ impl Family for Binary {
             _ => {}
         }
         argv.extend(cfg.argv()[1..].iter().cloned());
-        if cfg.color {
-            sc.env.push(("CLICOLOR_FORCE".into(), "1".into()));
-            sc.env.push(("NO_COLOR".into(), "".into()));
-        }
+        // the environment asks for colours in every run: with --disable-color the option must win (stdout AND stderr)
+        sc.env.push(("CLICOLOR_FORCE".into(), "1".into()));
+        sc.env.push(("NO_COLOR".into(), "".into()));
         sc.argv = argv;
         let obs = run(&sc, Duration::from_secs(20));
         let stderr = String::from_utf8_lossy(&obs.stderr).to_string();
